@@ -83,7 +83,17 @@ pub fn gen_p(t: &mut Tape, a: f64) -> (f64, &'static str) {
 }
 
 pub fn gen_case(t: &mut Tape, _tier: Tier) -> Option<Case> {
-    let a = if t.chance(0.35) { special_a(t) } else { (t.uniform(0.05f64.ln(), 100f64.ln())).exp().clamp(0.05, 100.0) };
+    let a = match t.weighted(&[0.45, 0.3, 0.25]) {
+        0 => (t.uniform(0.05f64.ln(), 100f64.ln())).exp().clamp(0.05, 100.0),
+        1 => special_a(t),
+        _ => {
+            // log-scale neighbourhoods of the algorithm's special shapes (1, 0.3) and of the domain ends
+            let c = *t.pick(&[1.0, 1.0, 1.0, 0.3, 0.05, 100.0, 0.5, 2.0]);
+            let d = 10f64.powf(-t.uniform(1.0, 15.0));
+            let a = if t.bool() { c * (1.0 + d) } else { c * (1.0 - d) };
+            a.clamp(0.05, 100.0)
+        }
+    };
     let (p, cl) = gen_p(t, a);
     let p2 = if t.bool() { (p + t.unit() * (1.0 - p)).min(ONE_M) } else { gen_p(t, a).0 };
     Some(Case { a, p: p.clamp(0.0, ONE_M), p2: p2.clamp(0.0, ONE_M), class: cl.to_string() })
